@@ -130,6 +130,7 @@ def apply_contract(interp, c, func, args, kwargs):
                 w = interp.truth(_call_pred(interp, when, env))
                 if interp.st.fork(w):
                     exc = _make_exc(interp, exc_cls, spec, env)
+                    _raised_by_contract(interp, c, spec, exc, bound, ghosts, old)
                     raise PyRaise(exc)
         nondet = [o for o in outcomes[1:] if o[2].get('when') is None]
         if nondet:
@@ -137,6 +138,7 @@ def apply_contract(interp, c, func, args, kwargs):
             if k > 0:
                 _, exc_cls, spec = nondet[k - 1]
                 exc = _make_exc(interp, exc_cls, spec, env)
+                _raised_by_contract(interp, c, spec, exc, bound, ghosts, old)
                 raise PyRaise(exc)
     result = c.returns.make(interp, 'ret.%s' % c.qname.rpartition(':')[2]) if isinstance(c.returns, Ty) else None
     if c.yields is not None:
@@ -152,6 +154,18 @@ def apply_contract(interp, c, func, args, kwargs):
             continue
         st.assume(interp.truth(_call_pred(interp, clause, env2)))
     return result
+
+
+def _raised_by_contract(interp, c, spec, exc, bound, ghosts, old):
+    """A contract used at a call site raises: ghost event (opt-in) and the exceptional postcondition."""
+    st = interp.st
+    if c.event_on_raise is not None:
+        st.emit(c.event_on_raise, exc)
+    ens = spec.get('ensures')
+    if ens is not None and spec.get('make') is not None:
+        # (only when the contract says how to build the exception: a bare instance has no attributes)
+        env = _clause_env(bound, ghosts, {'exc': exc, 'old': old, 'trace': st.trace, 'ghost': st.ghost})
+        st.assume(interp.truth(_call_pred(interp, ens, env)))
 
 
 def _make_exc(interp, exc_cls, spec, env):
